@@ -361,7 +361,9 @@ func randExtT(r *vh.Rng, vo vh.ValOpts) ExtT {
 	return x
 }
 
-func hasExtData(format string) bool { return format == "msgpack" || format == "binc" || format == "simple" }
+func hasExtData(format string) bool {
+	return format == "msgpack" || format == "binc" || format == "simple"
+}
 
 // randDyn builds a random schema-less tree for an interface{} slot.
 func randDyn(r *vh.Rng, format string, vo vh.ValOpts, depth int) interface{} {
@@ -973,12 +975,14 @@ func copyCase(c map[string]interface{}) map[string]interface{} {
 func main() {
 	nAPI := flag.Int("api", 800, "api cases (decode, locate leaves, history oracle)")
 	nEnc := flag.Int("enc", 600, "encode purity cases")
+	nSplit := flag.Int("split", 40, "split stream: encodings up to this length get every two-split schedule (longer ones a sample); 0 = off")
 	cases := flag.String("cases", "/verif/build/c13/cases", "directory for the model case files")
 	flag.Parse()
 	r := vh.NewRng(vh.SeedFromEnv())
 	sum := vh.NewSummary("unit: every (format, transport bytes/io x buffer 0,1,16,4096 x reader kind, ZeroCopy, driver operation, length 0/1/2/16/17/300) once; distinct by that tuple. " +
 		"api: random struct of typed and interface{} fields with strings, []byte, map keys, RawExt, Raw (5 formats x transports x ZeroCopy x InternString x decode options), leaves located by pointer range, then history oracle (decode on, reset onto other streams, reset, overwrite input); non-trivial = at least one non-empty leaf; distinct by (format, transport, ZeroCopy, InternString, set of flows, leaf count/4). " +
-		"enc: Canon snapshot before/after Encode; distinct by (format, scenario, options)")
+		"enc: Canon snapshot before/after Encode; distinct by (format, scenario, options). " +
+		"split: maps decoded by the reflection kMap (string/interface{}/named keys, non-fast-path value types) from a buffered reader delivering the stream in 2 or 3 pieces: every one-split and (short encodings: every, else sampled) two-split schedule x ReaderBufferSize 1,2,7,16,64 x ZeroCopy, compared with the []byte decode and re-compared after the Decoder moved on; distinct by (format, shape, buffer size, ZeroCopy)")
 	cv := vh.NewCases(*cases, "From Coq Require Import List NArith ZArith.\nFrom Verif Require Import C13.Model C13.Corr.\nImport ListNotations.", "case", "mismatches", 60)
 	id := 0
 	unitStream(*cases, cv, &id, sum)
@@ -1001,6 +1005,9 @@ func main() {
 	}
 	cv.Close()
 	encStream(r.Fork(), *nEnc, sum)
+	if *nSplit > 0 {
+		splitStream(r.Fork(), *nSplit, sum)
+	}
 	sum.Print()
 }
 
